@@ -177,7 +177,8 @@ func c18Prop(t *testing.T, k *verifkit.Kit) func(c c18Case) error {
 }
 
 var c18Hosts = []string{"fe80::1", "fe80::2", "2001:db8::1", "fe80::aaaa:bbbb"}
-var c18Prefixes = []string{"2001:db8:1::/64", "2001:db8:2::/64", "2001:db8::/32", "fd00::/8", "::/0", "2001:db8::1/128", "2001:db8:1::/64"}
+// several prefixes share an address and differ only in length
+var c18Prefixes = []string{"2001:db8:1::/64", "2001:db8:1::/48", "2001:db8:2::/64", "2001:db8::/32", "2001:db8::/48", "2001:db8::/64", "fd00::/8", "fd00::/16", "::/0", "::/64", "2001:db8::1/128", "2001:db8:1::/64"}
 
 func c18Gen(t *rapid.T) c18Case {
 	c := c18Case{RunPath: rapid.IntRange(0, 2).Draw(t, "runpath") == 0,
